@@ -107,6 +107,30 @@ class RawPeer:
             out.append(f)
         return out
 
+    def reassembled(self, sid, since=0):
+        """Frames received on `sid` with fragment runs merged (metadata then data concatenated)."""
+        out = []
+        run = None
+        for f in self.frames(None, sid, since):
+            if run is not None and f.get('type') == 'PAYLOAD':
+                run['metadata'] = (run.get('metadata') or b'') + (f.get('metadata') or b'') or None
+                run['data'] = (run.get('data') or b'') + (f.get('data') or b'')
+                run['complete'] = bool(f.get('complete'))
+                if f.get('next'):
+                    run['next'] = True
+                if not f.get('follows'):
+                    run['follows'] = False
+                    out.append(run)
+                    run = None
+                continue
+            if f.get('follows'):
+                run = dict(f)
+                continue
+            out.append(f)
+        if run is not None:
+            out.append(run)
+        return out
+
     async def wait_for(self, pred, timeout=30.0, since=0):
         """Wait (virtual time) until some received frame at index >= since satisfies pred."""
         loop = asyncio.get_event_loop()
